@@ -91,4 +91,4 @@ def run(tier="quick", seed=0, arg=None):
             "rule": "marker texts over the well-defined atom pool (both operand orders, nested and/or with parentheses), each evaluated on %d environments "
                     "by dep-logic and by the installed packaging; non-trivial = reference truth value varies over the grid; environments on which packaging itself "
                     "raises are outside the claim" % len(envs),
-            "samples": samples, "failures": fails[:200], "n_failures": len(fails), "bound": f"{len(envs)} environments"}
+            "samples": samples, "failures": fails[:3000], "n_failures": len(fails), "bound": f"{len(envs)} environments"}
